@@ -164,6 +164,8 @@ def gen_f_driver(cases, nvals, with_class):
     _FVARIANT.clear()
     if with_class:
         body.append(CLS_FDRIVER)
+    if with_class == "derived":
+        body.append(DERIVED_FDRIVER)
     L += body
     if with_class:
         L.append("contains")
@@ -262,6 +264,27 @@ CLS_FDRIVER = """
   end block
 """
 
+def _fcall(inv, ret, name, target, stmt):
+    return ('    call vt_begin("CallerInvoke"//C_NULL_CHAR, "%s"//C_NULL_CHAR); call vt_target("%s"//C_NULL_CHAR)\n'
+            '    %scall vt_end()\n    %s\n'
+            '    call vt_begin("CallerReturn"//C_NULL_CHAR, "%s"//C_NULL_CHAR); call vt_target("%s"//C_NULL_CHAR)\n'
+            '    %scall vt_end()\n') % (name, target, inv, stmt, name, target, ret)
+
+
+# a derived object through its own type-bound procedures and the ones it inherits (EXTENDS)
+DERIVED_FDRIVER = ("  block\n    type(derived) :: e\n    integer(C_INT) :: rv, g\n" +
+    _fcall("call vt_int(4_C_LONG); call vt_int(6_C_LONG); ", "call vt_obj(e%get_instance()); ", "derived",
+           "ns1::Derived::Derived(int,int)", "e = derived(4_C_INT, 6_C_INT)") +
+    _fcall("call vt_obj(e%get_instance()); ", "call vt_int(int(rv, C_LONG)); ", "get", "ns1::Cls::get()", "rv = e%get()") +
+    _fcall("call vt_obj(e%get_instance()); ", "call vt_int(int(rv, C_LONG)); ", "extra", "ns1::Derived::extra()", "rv = e%extra()") +
+    _fcall("call vt_obj(e%get_instance()); call vt_int(55_C_LONG); ", "", "set", "ns1::Cls::set(int)", "call e%set(55_C_INT)") +
+    _fcall("call vt_obj(e%get_instance()); ", "call vt_int(int(rv, C_LONG)); ", "extra", "ns1::Derived::extra()", "rv = e%extra()") +
+    "    g = e%get_value(); call mget_i(\"value\", e%cls, g)\n"
+    "    call mset_i(\"value\", e%cls, 12_C_INT); call e%set_value(12_C_INT)\n" +
+    _fcall("call vt_obj(e%get_instance()); ", "call vt_int(int(rv, C_LONG)); ", "get", "ns1::Cls::get()", "rv = e%get()") +
+    _fcall("call vt_obj(e%get_instance()); ", "", "dtor", "ns1::Derived::~Derived()", "call e%dtor()") +
+    "  end block\n")
+
 CLS_FCONTAINS = """
   subroutine mget_i(m, o, v)
     character(len=*), intent(in) :: m
@@ -327,7 +350,7 @@ def build_and_run_f(d, cases, with_class=True, nvals=4, options=None, extra_argv
         cpp = cpp.replace("#include <cstdio>", "#include <stdio.h>")
         hname, sname = "sub.h", "sub.c"
     else:
-        y, hpp, cpp = cgen.gen_library(cases, with_class, opts)
+        y, hpp, cpp = cgen.gen_library(cases, bool(with_class), opts, derived=(with_class == "derived"))
         hname, sname = "sub.hpp", "sub.cpp"
     with open(os.path.join(d, "sub.yaml"), "w") as f:
         yaml.safe_dump(y, f, default_flow_style=False, sort_keys=False)
